@@ -143,11 +143,16 @@ impl World {
     }
 
     /// `SET key v NX` / `XX` through `SimulatedNode::execute`
-    pub fn exec_set_cond(&mut self, out: &mut Out, i: usize, key: &str, v: &[u8], nx: bool) {
+    pub fn exec_set_cond(&mut self, out: &mut Out, i: usize, key: &str, v: &[u8], nx: bool, get: bool) {
         let before = self.sim.nodes[i].replica_state.pending_deltas.len();
-        let cmd = Command::Set { key: key.to_string(), value: SDS::new(v.to_vec()), ex: None, px: None, exat: None, pxat: None, nx, xx: !nx, get: false, keepttl: false };
+        let cmd = Command::Set { key: key.to_string(), value: SDS::new(v.to_vec()), ex: None, px: None, exat: None, pxat: None, nx, xx: !nx, get, keepttl: false };
         let r = self.sim.execute(0, i, cmd);
-        let applied = matches!(r, RespValue::SimpleString(_));
+        // with GET the reply is the old value: NX applied iff there was none, XX applied iff there was one
+        let applied = match (get, nx) {
+            (false, _) => matches!(r, RespValue::SimpleString(_)),
+            (true, true) => matches!(r, RespValue::BulkString(None)),
+            (true, false) => matches!(r, RespValue::BulkString(Some(_))),
+        };
         let nd = &self.sim.nodes[i];
         let after = nd.replica_state.pending_deltas.len();
         // (the outbox is far from its capacity in these scenarios: its growth is the number of deltas)
@@ -161,6 +166,22 @@ impl World {
         let ans = format!("applied={} d={} pend={}", applied as u8, d, after);
         self.op(out, format!("SXC {} {} {} {}", i, hex(key.as_bytes()), hex(v), if nx { "NX" } else { "XX" }), ans);
         out.count(if applied { "sim:exec:set-cond:applied" } else { "sim:exec:set-cond:refused" });
+    }
+
+    /// `SET key v EX 0`: the executor answers with an error; nothing may be recorded (no model op:
+    /// the next state dump must still agree)
+    pub fn exec_rejected(&mut self, out: &mut Out, i: usize, key: &str) {
+        let before = self.sim.nodes[i].replica_state.pending_deltas.len();
+        let r = self.sim.execute(0, i, Command::setex(key.to_string(), 0, SDS::new(b"rejected".to_vec())));
+        let after = self.sim.nodes[i].replica_state.pending_deltas.len();
+        out.count("sim:exec:set-rejected-with-error");
+        if !matches!(r, RespValue::Error(_)) || after != before {
+            out.violation(
+                "C06:sim:rejected-set-recorded",
+                "SET k v EX 0 through SimulatedNode::execute: the executor must answer with an error and nothing may be recorded",
+                json!({"history": self.text.clone(), "node": i, "key": key, "reply_is_error": matches!(r, RespValue::Error(_)), "outbox_before": before, "outbox_after": after}),
+            );
+        }
     }
 
     pub fn exec_del(&mut self, out: &mut Out, i: usize, keys: &[&str]) {
@@ -595,10 +616,18 @@ fn refused_set_corpus(out: &mut Out, cap: u64) {
     let shape = Shape { n: 2, rf: None, causal: false, auto: false, depth: 8, limit: 1000, keys: KEYS.len() };
     let mut w = World::new(out, shape, cap, 7);
     w.exec_set(out, 0, "k", b"a", None);
-    w.exec_set_cond(out, 0, "k", b"b", true);
-    w.exec_set_cond(out, 0, "h", b"c", true);
-    w.exec_set_cond(out, 0, "zz", b"d", false);
-    w.exec_set_cond(out, 0, "h", b"e", false);
+    w.exec_set_cond(out, 0, "k", b"b", true, false);
+    w.exec_set_cond(out, 0, "h", b"c", true, false);
+    w.exec_set_cond(out, 0, "zz", b"d", false, false);
+    w.exec_set_cond(out, 0, "h", b"e", false, false);
+    // the GET variants: the reply is the old value
+    w.exec_set_cond(out, 0, "k", b"f", true, true);
+    w.exec_set_cond(out, 0, "q", b"g", true, true);
+    w.exec_set_cond(out, 0, "k2", b"h", false, true);
+    w.exec_set_cond(out, 0, "q", b"i", false, true);
+    // a SET the executor rejects with an error changes nothing and is not recorded
+    w.exec_rejected(out, 0, "k");
+    w.exec_rejected(out, 0, "é");
     w.state(out, 0);
     w.gossip(out, 0.0, 1, 1);
     w.advance(out, 5);
